@@ -484,7 +484,86 @@ def m7(prog, ctx):
         ctx.ok("M7", "%s:%d" % (DSP, ap.lineno), "every record of a read with several records reaches the resolver (skipped: None, single-record reads)")
 
 
+def m8(prog, ctx, tag="M8"):
+    """A read is a multimapper when it has more than one RECORD: collect_reads counts the records of a read by iterating what each chromosome
+    task returns, so that container keeps one element per saved record - a list that is only appended to - in both memory modes and on
+    the normal and the --resume path.  A set (or a dict keyed by read id) would make two records of one read on one chromosome count once."""
+    from ..engine.setorder import Census
+    f = prog.func(DSP, "collect_reads_in_parallel")
+    census = Census(prog)
+    rets = [r for r in walk_no_nested(f) if isinstance(r, ast.Return) and isinstance(r.value, ast.Tuple) and len(r.value.elts) == 3]
+    if not rets:
+        ctx.undecided(tag, f, f.name, "no return of a (groups, statistics, records) triple found")
+        return
+    n = 0
+    for r in rets:
+        e = r.value.elts[2]
+        n += 1
+        if census.is_set_expr(e, f) or census.is_dictset_expr(e, f):
+            ctx.fail(tag, r, f.name, "records container %s is a set" % src(e), "the per-chromosome container of processed records (%s) is a set: "
+                     "a read with two records on this chromosome (secondary alignment, alignment bridging two sub-regions) is counted once, "
+                     "treated as uniquely placed and never reaches the multimapper resolver - every record of it is kept" % src(e))
+            continue
+        if not isinstance(e, ast.Name):
+            ctx.undecided(tag, r, f.name, "third element of the result (%s) is not a plain local" % src(e)[:40])
+            continue
+        defs = [st.value for st in ast.walk(f) if isinstance(st, ast.Assign) and any(src(t) == e.id for t in st.targets)]
+        bad = [d for d in defs if not (isinstance(d, ast.List) and not d.elts)]
+        muts = [c for c in ast.walk(f) if isinstance(c, ast.Call) and isinstance(c.func, ast.Attribute) and src(c.func.value) == e.id]
+        badm = [c for c in muts if c.func.attr != "append"]
+        if bad or badm:
+            x = (bad or badm)[0]
+            ctx.fail(tag, x if hasattr(x, "lineno") else r, f.name, "records container: %s" % src(x)[:70],
+                     "the per-chromosome container of processed records (%s) is not a list that is only appended to (%s): the number of "
+                     "records per read, which decides whether a read goes to the multimapper resolver, is no longer preserved"
+                     % (e.id, src(x)[:50]))
+        elif not muts:
+            ctx.undecided(tag, r, f.name, "no append into %s found (filled in a helper?)" % e.id)
+        else:
+            ctx.ok(tag, "%s:%d" % (DSP, r.lineno), "%s is a list, filled by %d append sites only" % (e.id, len(muts)))
+    ctx.floor(tag, "returns of collect_reads_in_parallel", n, 2)
+
+
+def m9(prog, ctx):
+    """MultimapResolver.resolve hands a list of two or more records back UNCHANGED only after it has suspended every one of them (strategy
+    ignore_multimapper); every other way out goes through a strategy routine.  An extra early `return assignment_list` lets all
+    records of a multi-record read through: each is then reported and counted."""
+    f = prog.func(MR, "MultimapResolver.resolve")
+    params = [a.arg for a in f.args.args if a.arg != "self"]
+    if not params:
+        ctx.undecided("M9", f, f._qualname, "resolve() takes no list parameter")
+        return
+    lst = params[0]
+    n = 0
+    seen = set()
+    for pth in flow.paths(f):
+        if pth.exit != "return" or pth.exit_node is None or pth.exit_node.value is None:
+            continue
+        if src(pth.exit_node.value) != lst:
+            continue
+        n += 1
+        trivial = any(pol and re.search(r"len\(%s\)\s*(<=\s*1|<\s*2|==\s*[01])|%s is None|^not %s$" % (lst, lst, lst), src(t))
+                      for c, p_ in pth.conds() for t, pol in ((c, p_),) if p_)
+        suspended = any(isinstance(s_, ast.For) and src(s_.iter) == lst and any(
+            isinstance(a, ast.Assign) and src(a.value).endswith(".suspended") for a in ast.walk(s_)) for s_ in pth.stmts())
+        if trivial or suspended:
+            ctx.ok("M9", "%s:%d" % (MR, pth.exit_node.lineno), "input list returned %s" % ("for 0/1 records" if trivial else "after suspending every record"))
+        elif pth.exit_node.lineno not in seen:
+            seen.add(pth.exit_node.lineno)
+            ctx.fail("M9", pth.exit_node, f._qualname, "unresolved return under: %s" % "; ".join(
+                ("" if p_ else "not ") + src(c)[:50] for c, p_ in pth.conds())[:120],
+                "resolve() returns the list of a read's records unchanged on the path [%s]: neither is there at most one record nor "
+                "were the records suspended or passed to a strategy routine - all of them stay in the output" % pth.describe()[:140])
+    ctx.floor("M9", "paths of resolve() that return the input list", n, 2)
+
+
 def run(prog, ctx):
+    ctx.rule("M9", "every path of MultimapResolver.resolve that returns its input list itself is taken for at most one record (None / len <= 1) or "
+                   "after a loop that suspends every record; all other exits are results of strategy routines")
+    m9(prog, ctx)
+    ctx.rule("M8", "the third element returned by collect_reads_in_parallel (one entry per saved record; collect_reads counts a read's records "
+                   "by iterating it) is a local list that is only appended to - never a set / dict")
+    m8(prog, ctx)
     ctx.rule("M1", "each index list of select_best_assignment gets its priority class from the predicates guarding its append; the "
                    "sequence of `if L: return` is strictly increasing in primary-unique-consistent < consistent < primary-"
                    "inconsistent < inconsistent < noninformative and passes its own list")
